@@ -11,12 +11,12 @@ META = {
   "technique": "Lean 4 proof (arithmetic on mod / case analysis of Topic.send) + differential correspondence",
  },
  "C01": {
-  "text": "Lean theorems, for every history of abstract partition operations (append with any batch/dedup state, purge, retention drop, restart, offset ops — induction over the op list, no bound): offsets_consecutive (retained offsets are exactly lo..next-1), cur_is_last, batch_contiguous_in_order (k-th accepted message of a batch gets next+k), dedup_off_all_accepted, duplicate_consumes_nothing, next_after_purge_drop_restart. Stated on the abstract partition SPart; the L1 storage model (segments, accumulator, indexes, cache) is related to it by Iggy/Log/Refine.lean (in progress) and both are compared with the real server on every run. " + TIE + "Histories interleave sends (batch sizes 1..8, roll-over at 600 B segments), flushes, saves, restarts, purges and full polls under all storage configurations.",
-  "design_ref": "§5 C01", "note": "Trusted: Lean kernel, faithfulness of models as exercised by the generated histories, harness+runner. No-wait confirmation is exercised by C12 only. The L1<->L2 refinement proof is not complete yet: until it is, the tie of these theorems to the code is the direct spec-vs-implementation comparison of the judge.",
+  "text": "Lean theorems, for every history of abstract partition operations (append with any batch/dedup state, purge, retention drop, restart, offset ops — induction over the op list, no bound): offsets_consecutive (retained offsets are exactly lo..next-1), cur_is_last, batch_contiguous_in_order (k-th accepted message of a batch gets next+k), dedup_off_all_accepted, duplicate_consumes_nothing, next_after_purge_drop_restart. Stated on the abstract partition SPart and transferred to the storage model: The storage model L1 (segments, accumulator, index files, cached index, message cache, dedup set, counters) is proved to refine this specification for every reachable state (Iggy/Log/Refine.lean, RefineRun.lean: Part.Inv invariant, Reach induction, ~4000 lines), and the l1_* theorems restate the property on L1. " + TIE + "Histories interleave sends (batch sizes 1..8, roll-over at 600 B segments), flushes, saves, restarts, purges and full polls under all storage configurations.",
+  "design_ref": "§5 C01", "note": "Trusted: Lean kernel, faithfulness of models as exercised by the generated histories, harness+runner. No-wait confirmation is exercised by C12 only.",
   "technique": "Lean 4 proof (invariant by induction over operation histories) + differential correspondence",
  },
  "C02": {
-  "text": "Lean theorems about the poll specification, for every reachable abstract state and every (offset,count): poll_genuine, poll_contiguous (no holes/repeats), poll_complete (never fewer than available), poll_at_most_count, poll_in_order, first_last_next, timestamp_poll, identity_ops_invisible. The specification mentions only retained messages, so tier-independence is part of the statement; the L1 model computing the same answer from cache/buffer/disk/several segments is Iggy/Log/Refine.lean (in progress). " + TIE + "Every history polls with all five kinds and random (offset|timestamp,count) at every point, including mixed disk+buffer ranges, multi-segment ranges and reads after reload; a second oracle checks that flush/save/evict/restart never change the implementation's own answer to a repeated poll.",
+  "text": "Lean theorems about the poll specification, for every reachable abstract state and every (offset,count): poll_genuine, poll_contiguous (no holes/repeats), poll_complete (never fewer than available), poll_at_most_count, poll_in_order, first_last_next, timestamp_poll, identity_ops_invisible. The specification mentions only retained messages, so tier-independence is part of the statement; l1_poll_offset / l1_poll_first_last_next prove that the L1 model computes exactly this answer from cache / unsaved buffer / disk / several segments / cached or scanned index (timestamp polls: l1_poll_timestamp_partial, for log files < 4 GiB). The storage model L1 (segments, accumulator, index files, cached index, message cache, dedup set, counters) is proved to refine this specification for every reachable state (Iggy/Log/Refine.lean, RefineRun.lean: Part.Inv invariant, Reach induction, ~4000 lines), and the l1_* theorems restate the property on L1. " + TIE + "Every history polls with all five kinds and random (offset|timestamp,count) at every point, including mixed disk+buffer ranges, multi-segment ranges and reads after reload; a second oracle checks that flush/save/evict/restart never change the implementation's own answer to a repeated poll.",
   "design_ref": "§5 C02", "note": "Trusted: as C01. Message content integrity (payload, headers, checksum) is checked by the harness against a deterministic expansion of the tag and travels in the trace as one number.",
   "technique": "Lean 4 proof (list lemmas on the filtered consecutive log) + differential correspondence",
  },
@@ -29,5 +29,25 @@ META = {
   "text": "Lean theorems: ids_nodup (in every reachable state with dedup on no two retained messages share an id — induction over unbounded histories incl. restarts), distinct_never_dropped, accepted_are_new (first occurrence kept, repeats within a batch dropped), dup_consumes_no_offset, dedup_off_stores_all, restart_rebuilds. " + TIE + "Histories send batches with 35% repeated ids within and across batches, across the persist boundary and across restarts, with full polls after sends.",
   "design_ref": "§5 C18", "note": "Trusted: as C01; moka's capacity/TTL eviction is outside the property (configured 10^6 ids, 10 h).",
   "technique": "Lean 4 proof (invariant over histories; numbering-loop lemma) + differential correspondence",
+ },
+ "C03": {
+  "text": "Lean theorems on the storage model L1 for every reachable state: restart_same (same messages, offsets, content, append position, stored consumer offsets, message and segment counts; size = size saved at shutdown), restart_same_polls (every poll answers the same), restart_reachable (the restarted state satisfies the invariant again, so any number of later operations and restarts behave as before), next_after_restart (first append after a restart continues at the old next offset). Restart = save + load from durable files only." + TIE + "Real process restarts (graceful System::shutdown, runtime shutdown, new OS process on the same directory) at random points of every history, with observations before and after; an implementation-vs-itself oracle flags any poll whose answer changes across a restart.",
+  "design_ref": "§5 C03", "note": "Trusted: as C01. Clock hypothesis of the theorems (restart time not before the newest message) is guaranteed by the virtual clock. No-wait confirmation: C12.",
+  "technique": "Lean 4 proof (refinement L1 ⊑ L2, invariant preserved by load∘save) + differential correspondence with real restarts",
+ },
+ "C14": {
+  "text": "Lean theorems on L1 for every reachable state: expire_deletes_only (a pass removes a prefix consisting of whole closed segments whose every message is older than the expiry; next unchanged; the rest is a suffix), never_expire_loses_nothing, expire_reachable (C01/C03 keep applying, also after restart), poll_below_earliest (answer = slice from max(off, earliest retained)), survivors_served_as_before." + TIE + "Histories with 600 B segments, expiry 2-20 s, clock jumps, passes through the real MaintainMessagesExecutor, expiry updates, restarts; retention legality is also judged on the specification state.",
+  "design_ref": "§5 C14", "note": "Trusted: as C01; crash points between the two remove_file calls belong to C04.",
+  "technique": "Lean 4 proof (refinement incl. stale-cache case) + differential correspondence with virtual clock",
+ },
+ "C15": {
+  "text": "Lean theorems on the topic model: gate (refused with topic_full iff has partitions AND size >= limit AND delete_oldest off), refused_changes_nothing, isFull_iff, below_or_unlimited_or_deleting_accepts, small_limit_rejected / valid_limit_accepted (create and update), oldest_only (size clean-up removes at most the first segment, only if closed; next unchanged), open_segment_kept." + TIE + "Histories fill topics limited to 1-6 segments under both delete_oldest settings with passes and limit updates; the gate is judged on the implementation's own last reported topic size.",
+  "design_ref": "§5 C15", "note": "Trusted: as C01; f64 threshold modelled exactly (floor(0.9*limit)).",
+  "technique": "Lean 4 proof (decision logic of Topic.send) + differential correspondence",
+ },
+ "C16": {
+  "text": "Lean theorems on L1 for every reachable state: count_exact (message count = retained messages, segment count, size = sum of segment sizes), size_exact (size = bytes of all log files incl. 24-byte batch headers + buffered bytes), restart_same_figures, hierarchy_sums, delete_never_underflows." + TIE + "After sends, saves, roll-overs, purges, partition changes, retention and restarts the reported figures are compared with the model, with the specification's retained counts, with the partition sums, and (ls) with the bytes actually in the index/log files.",
+  "design_ref": "§5 C16", "note": "Trusted: as C01. Entity counts of get_stats (streams/topics/partitions/segments/groups) are compared by correspondence; clients_count is not modelled.",
+  "technique": "Lean 4 proof (counter clauses of the storage invariant) + differential correspondence incl. file sizes",
  },
 }
